@@ -1239,6 +1239,25 @@ package sarama
 //@   loop 0: iter_ensures[a_retried_message_keeps_its_partition @C17] it(msg.retries) != 0 ==> msg.Partition == it(msg.Partition) && msg.disp == it(msg.disp) + 1 && msg.errEvents == it(msg.errEvents)
 //@   nosafety
 
+// (C01) shutdown: the shutdown marker is counted in flight before it is submitted, and the input, retry, error and
+// success channels are closed only after the wait for the in-flight count has returned - together with "the event is
+// on its channel before the message leaves flight" (returnError, returnSuccesses) no channel is closed ahead of a
+// pending event. p.drained records that the wait has returned.
+//@ ghost field asyncProducer.drained bool
+//@ func (c Client) Close() trusted
+//@   returns err
+//@   modifies nothing
+//@ func (p *asyncProducer) shutdown() props C01
+//@   requires !p.drained
+//@   callsite send.input: requires[shutdown_marker_counted_in_flight] $value.flags == shutdown && wgcount(p.inFlight) == old(wgcount(p.inFlight)) + 1 && !p.drained
+//@   callsite Wait: modifies p.drained
+//@   callsite Wait: effect p.drained
+//@   callsite close.input: requires[closed_after_the_wait] p.drained
+//@   callsite close.retries: requires[closed_after_the_wait] p.drained
+//@   callsite close.errors: requires[closed_after_the_wait] p.drained
+//@   callsite close.successes: requires[closed_after_the_wait] p.drained
+//@   nosafety
+
 // spawns the topic worker; touches no message, produce set or configuration (A-own)
 //@ func (p *asyncProducer) newTopicProducer(topic) trusted
 //@   returns ch
